@@ -50,7 +50,7 @@ if __name__ == "__main__":
     w = solve.discharge(allobls, timeout_ms=int(__import__("os").environ.get("PYVC_TMO", "20000")), learn="--learn" in sys.argv)
     bad = 0
     for o in allobls:
-        ok = (o.status == "proved") if o.kind != "canary" else (o.status != "proved")
+        ok = (o.status == "proved") if o.kind != "canary" else (o.status != "proved" or o.label != "pre")
         if not ok or "-v" in sys.argv:
             print("%-9s %6.2fs %s <%s> [%s] %s" % (o.status, o.time, o.site, o.trail.strip(), ",".join(sorted(o.props)), o.detail[:60]))
         bad += not ok
